@@ -138,6 +138,8 @@ fn finish(out: &mut Outcome, engine: &str, cells: Vec<Value>, tier: Tier) {
 }
 
 const MAXE: u64 = 3_000_000;
+/// execution cap of the deepest thorough cells (reported as capped, never as exhaustive, if reached)
+const DEEP: u64 = 40_000_000;
 
 // ---------------------------------------------------------------- C01 (Mode A part)
 
@@ -152,9 +154,9 @@ pub fn c01_cells(tier: Tier) -> Vec<Value> {
                     cfg.handshake = hs;
                     let d = match tier {
                         Tier::Quick => if blk == 8 && !hs { 2 } else { 1 },
-                        Tier::Thorough => if blk == 8 && ws <= 2 { 3 } else { 2 },
+                        Tier::Thorough => if blk == 8 && ws <= 2 && !hs && len <= 2 * ws as usize * blk + 1 { 4 } else if blk == 8 { 3 } else { 2 },
                     };
-                    cells.push(cell_spec(&cfg, d, MAXE, &p));
+                    cells.push(cell_spec(&cfg, d, DEEP, &p));
                 }
             }
         }
@@ -217,9 +219,9 @@ pub fn c02_cells(tier: Tier) -> Vec<Value> {
                 let cfg = base_cfg(Role::Receiver, len, blk, ws);
                 let d = match tier {
                     Tier::Quick => if blk == 8 { 2 } else { 1 },
-                    Tier::Thorough => if blk == 8 && ws <= 2 { 3 } else { 2 },
+                    Tier::Thorough => if blk == 8 && ws <= 2 && len <= 2 * ws as usize * blk + 1 { 4 } else if blk == 8 { 3 } else { 2 },
                 };
-                cells.push(cell_spec(&cfg, d, MAXE, &p));
+                cells.push(cell_spec(&cfg, d, DEEP, &p));
             }
         }
     }
@@ -275,9 +277,9 @@ pub fn c07_cells(tier: Tier) -> Vec<Value> {
                     cfg.handshake = hs;
                     let d = match tier {
                         Tier::Quick => if hs { 1 } else { 2 },
-                        Tier::Thorough => if ws <= 2 { 3 } else { 2 },
+                        Tier::Thorough => if ws <= 2 && !hs && len <= 2 * ws as usize * blk + 1 { 4 } else { 3 },
                     };
-                    cells.push(cell_spec(&cfg, d, MAXE, &p));
+                    cells.push(cell_spec(&cfg, d, DEEP, &p));
                     // silence family: all-Timeout from every point of the fault-free run;
                     // error family: ERROR at every point (handshake included)
                     let points = (len / blk + 1) / ws as usize + 3;
@@ -346,13 +348,13 @@ pub fn c08_cells(tier: Tier) -> Vec<Value> {
                 cfg.handshake = hs;
                 let d = match tier {
                     Tier::Quick => if ws <= 2 && len <= 2 * w * blk + 1 { 2 } else { 1 },
-                    Tier::Thorough => 2,
+                    Tier::Thorough => if ws <= 2 && !hs && len <= 2 * w * blk + 1 { 3 } else { 2 },
                 };
-                cells.push(cell_spec(&cfg, d, MAXE, &p));
+                cells.push(cell_spec(&cfg, d, DEEP, &p));
             }
             // receiver side (W4)
             let cfg = base_cfg(Role::Receiver, len, blk, ws);
-            cells.push(cell_spec(&cfg, if tier == Tier::Quick { 1 } else { 2 }, MAXE, &p));
+            cells.push(cell_spec(&cfg, if tier == Tier::Quick { 1 } else if ws <= 2 { 3 } else { 2 }, DEEP, &p));
         }
     }
     // k = 1..9 duplicate (kind 0) or future (kind 1) ACKs in a row, then the conformant answers resume: no retransmission
@@ -408,7 +410,7 @@ pub fn c16_cells(tier: Tier) -> Vec<Value> {
                     let mut cfg = base_cfg(role, len, blk, ws);
                     cfg.repeat = n + 1;
                     cfg.alpha = 2;
-                    cells.push(cell_spec(&cfg, if tier == Tier::Quick && n >= 2 { 0 } else { 1 }, MAXE, &p));
+                    cells.push(cell_spec(&cfg, if tier == Tier::Quick && n >= 2 { 0 } else if tier == Tier::Thorough && n <= 1 { 2 } else { 1 }, MAXE, &p));
                     if n > 0 {
                         let mut c2 = cfg.clone();
                         c2.ack_every_copy = true;
